@@ -21,6 +21,7 @@ package rostrings
 //@   binds value
 //@   calls toCamelCase
 //@   params value
+//@   scope value
 //@   ensures [lifts-the-helper-over-the-item|C18] result == toCamelCase(value)
 
 //@ func Capitalize$1
@@ -28,6 +29,7 @@ package rostrings
 //@   binds value
 //@   calls capitalize
 //@   params value
+//@   scope value
 //@   ensures [lifts-the-helper-over-the-item|C18] result == capitalize(value)
 
 //@ func Ellipsis$1
@@ -35,6 +37,7 @@ package rostrings
 //@   binds value length
 //@   calls ellipsis
 //@   params value
+//@   scope length value
 //@   ensures [lifts-the-helper-over-the-item-and-the-length|C18] result == ellipsis(value, length)
 
 //@ func KebabCase$1
@@ -42,6 +45,7 @@ package rostrings
 //@   binds value
 //@   calls kebabCase
 //@   params value
+//@   scope value
 //@   ensures [lifts-the-helper-over-the-item|C18] result == kebabCase(value)
 
 //@ func PascalCase$1
@@ -49,6 +53,7 @@ package rostrings
 //@   binds value
 //@   calls pascalCase
 //@   params value
+//@   scope value
 //@   ensures [lifts-the-helper-over-the-item|C18] result == pascalCase(value)
 
 //@ func SnakeCase$1
@@ -56,6 +61,7 @@ package rostrings
 //@   binds value
 //@   calls snakeCase
 //@   params value
+//@   scope value
 //@   ensures [lifts-the-helper-over-the-item|C18] result == snakeCase(value)
 
 //@ func Random$1
@@ -63,6 +69,7 @@ package rostrings
 //@   binds size charset
 //@   calls random
 //@   params value
+//@   scope charset size value
 //@   ensures [draws-a-string-of-the-configured-size-and-charset|C18] result == random(size, charset)
 
 // The random-string helper itself: safety only (the drawing loop uses bit masks and a float logarithm, which are
@@ -71,6 +78,7 @@ package rostrings
 //@ func random
 //@   props C18
 //@   binds size charset
+//@   scope charset sb size
 //@   requires size > 0 && len(charset) > 0
 //@   trusted nopanic/index : idx = int(cache & mask) is non-negative because xrand.Int64() is and the mask is; bit operations are uninterpreted here
 //@   track loop.*
